@@ -13,8 +13,10 @@ pub enum Family {
     Cage,
     Library,
     Blocked,
+    Edge,
+    PushPull,
 }
-pub const FAMILIES: [Family; 8] = [Family::Setup, Family::Random, Family::Sparse, Family::TrapDense, Family::Goal, Family::Cage, Family::Library, Family::Blocked];
+pub const FAMILIES: [Family; 10] = [Family::Setup, Family::Random, Family::Sparse, Family::TrapDense, Family::Goal, Family::Cage, Family::Library, Family::Blocked, Family::Edge, Family::PushPull];
 impl Family {
     pub fn name(self) -> &'static str {
         match self {
@@ -26,6 +28,8 @@ impl Family {
             Family::Cage => "cage",
             Family::Library => "library",
             Family::Blocked => "blocked",
+            Family::Edge => "edge",
+            Family::PushPull => "push_pull",
         }
     }
 }
@@ -346,6 +350,77 @@ fn blocked_board(rng: &mut Rng) -> Board {
     b
 }
 
+/// pieces concentrated on the edge files and ranks and in the corners, enemies next to each other
+fn edge_board(rng: &mut Rng) -> Board {
+    let mut b = EMPTY;
+    let mut q = BTreeQuota::new();
+    let edge: Vec<Sq> = (0..64u8).map(Sq).filter(|s| s.file() == 0 || s.file() == 7 || s.rank() == 1 || s.rank() == 8).collect();
+    let near: Vec<Sq> = (0..64u8).map(Sq).filter(|s| !edge.contains(s) && (s.file() == 1 || s.file() == 6 || s.rank() == 2 || s.rank() == 7)).collect();
+    let n_edge = 6 + rng.below(14);
+    for _ in 0..n_edge {
+        let sq = if rng.chance(0.7) { edge[rng.below(edge.len())] } else { near[rng.below(near.len())] };
+        if b[sq.0 as usize].is_some() {
+            continue;
+        }
+        let side = if rng.chance(0.5) { Side::Gold } else { Side::Silver };
+        let k = KINDS[rng.weighted(&[3, 2, 2, 2, 2, 2])];
+        if k == Kind::R && ((side == Side::Gold && sq.rank() == 8) || (side == Side::Silver && sq.rank() == 1)) {
+            continue;
+        }
+        if q.take(side, k) {
+            b[sq.0 as usize] = Some((side, k));
+        }
+    }
+    for side in [Side::Gold, Side::Silver] {
+        if count(&b, side, Kind::R) == 0 && q.take(side, Kind::R) {
+            place_random(&mut b, rng, side, Kind::R, |sq| (2..=7).contains(&sq.rank()));
+        }
+    }
+    clean_traps(&mut b);
+    b
+}
+
+/// many adjacent enemy pairs of unequal and equal strength, with friends nearby (freezing,
+/// pushes, pulls, several candidate pushers/pullers for one victim)
+fn push_pull_board(rng: &mut Rng) -> Board {
+    let mut b = EMPTY;
+    let mut q = BTreeQuota::new();
+    let clusters = 2 + rng.below(4);
+    for _ in 0..clusters {
+        let c = Sq(rng.below(64) as u8);
+        let mut cells: Vec<Sq> = c.neighbours().collect();
+        cells.push(c);
+        for n in c.neighbours().collect::<Vec<_>>() {
+            for nn in n.neighbours() {
+                if !cells.contains(&nn) && rng.chance(0.3) {
+                    cells.push(nn);
+                }
+            }
+        }
+        let victim_side = if rng.chance(0.5) { Side::Gold } else { Side::Silver };
+        for (i, cell) in cells.iter().enumerate() {
+            if b[cell.0 as usize].is_some() || !rng.chance(0.6) {
+                continue;
+            }
+            let side = if i == cells.len() - 1 { victim_side } else if rng.chance(0.65) { victim_side.other() } else { victim_side };
+            let k = KINDS[rng.weighted(&[3, 2, 2, 2, 2, 1])];
+            if k == Kind::R && ((side == Side::Gold && cell.rank() == 8) || (side == Side::Silver && cell.rank() == 1)) {
+                continue;
+            }
+            if q.take(side, k) {
+                b[cell.0 as usize] = Some((side, k));
+            }
+        }
+    }
+    for side in [Side::Gold, Side::Silver] {
+        if count(&b, side, Kind::R) == 0 && q.take(side, Kind::R) {
+            place_random(&mut b, rng, side, Kind::R, |sq| (2..=7).contains(&sq.rank()));
+        }
+    }
+    clean_traps(&mut b);
+    b
+}
+
 pub const LIBRARY: &[&str] = &[
     // the smallest cage, as measured in the design phase (all-withheld state after 17 actions)
     "2g\n +-----------------+\n8|                 |\n7|                 |\n6|     x     x     |\n5| r   R           |\n4| R R             |\n3|     x     x     |\n2|                 |\n1|               E |\n +-----------------+\n   a b c d e f g h\n",
@@ -423,6 +498,8 @@ pub fn generate(rng: &mut Rng, family: Family) -> Start {
         Family::Goal => (goal_board(rng, side), side),
         Family::Cage => cage_board(rng),
         Family::Blocked => (blocked_board(rng), side),
+        Family::Edge => (edge_board(rng), side),
+        Family::PushPull => (push_pull_board(rng), side),
         Family::Library => {
             let text = LIBRARY[rng.below(LIBRARY.len())];
             let (b, s, _) = parse_diagram(text).expect("library diagram");
